@@ -2,7 +2,7 @@
 (* Trace validation for C07: what a forked child running the real quill backend let an outside observer see *)
 (* (harness/h_life.cpp) is judged by the contract LifeContract. One JSON line per observable event, in the  *)
 (* order of the child's global event counter (one seq_cst fetch_add per event), then what the parent saw:   *)
-(*   {"op":"reset"}                                      next scenario                                      *)
+(*   {"op":"reset","wait":b}                             next scenario; b = wait_for_queues_to_empty_before_exit *)
 (*   {"op":"start","running":b}                          Backend::start returned, is_running() = b          *)
 (*   {"op":"logret","t":t,"n":n}                         the n-th log call of thread t has returned         *)
 (*   {"op":"stopcall"} / {"op":"stopret","lines":[..]}   Backend::stop() about to be called / has returned, *)
@@ -18,7 +18,7 @@ T == {"m", "w1", "w2"}
 VARIABLES l, c, rej, wf
 vars == <<l, c, rej, wf>>
 
-Init == l = 1 /\ c = C!CInit(T) /\ rej = 0 /\ wf = TRUE
+Init == l = 1 /\ c = C!CInit(T, TRUE) /\ rej = 0 /\ wf = TRUE
 
 \* the contract's verdict on one event
 Judge(b, why) == /\ rej' = (IF b THEN rej ELSE rej + 1)
@@ -28,7 +28,7 @@ Next ==
   /\ l <= Len(TraceLog)
   /\ l' = l + 1
   /\ LET e == TraceLog[l] IN
-     CASE e.op = "reset" -> c' = C!CInit(T) /\ UNCHANGED <<rej, wf>>
+     CASE e.op = "reset" -> c' = C!CInit(T, e.wait) /\ UNCHANGED <<rej, wf>>
        [] e.op = "start" -> /\ c' = C!CStart(c) /\ UNCHANGED wf
                             /\ Judge(C!CStartOK(c, e.running), "start: backend not running after Backend::start")
        [] e.op = "logret" -> /\ c' = C!CLogRet(c, e.t, e.n)
